@@ -123,6 +123,8 @@ class Group:
 
     def cond(self, e, fname):
         if isinstance(e, ast.UnaryOp) and isinstance(e.op, ast.Not):
+            if not isinstance(e.operand, (ast.BoolOp, ast.Compare)) and not (isinstance(e.operand, ast.UnaryOp) and isinstance(e.operand.op, ast.Not)):
+                return "(decide (%s = 0))" % self.expr(e.operand, fname)   # `not x` on an int
             return "(!%s)" % self.cond(e.operand, fname)
         if isinstance(e, ast.BoolOp):
             op = " && " if isinstance(e.op, ast.And) else " || "
